@@ -191,6 +191,8 @@ func genC11(c *Ctx) {
 	fmt.Fprintf(&b, "/-- cleanupSnapshots -/\ndef cleanupSnapshotsExprs : List String := %s\n", leanStrs(snapExprs))
 	fmt.Fprintf(&b, "/-- cleanupSegments: control skeleton in source order -/\ndef cleanupSegmentsSkeleton : List String := %s\n", leanStrs(order))
 	fmt.Fprintf(&b, "/-- Cleanup: snapshots first, then segments -/\ndef cleanupOrder : List String := %s\n", leanStrs(cleanupOrder))
+	ncm, cmErr := loadSnapshotsCommitFacts(c, idx)
+	fmt.Fprintf(&b, "/-- loadSnapshots: number of deletionPolicy.Commit calls, and whether one of them lies in an error branch -/\ndef loadCommitCalls : Nat := %d\ndef loadCommitOnErr : Bool := %s\n", ncm, leanBool(cmErr))
 	b.WriteString("\nend BlugeGen.C11\n")
 	c.WriteLean("C11", b.String())
 	c.Summary["facts"] = 10
